@@ -1,6 +1,6 @@
 SPECIFICATION Spec
 CONSTANTS
   FromSet <- FromQ
-  ToSet <- SufQ
+  ToSet <- ToQ
 INVARIANTS InverseInv ToIsInvFromInv ThroughInternalInv PermInv EmitAdapt
 CHECK_DEADLOCK FALSE
